@@ -36,7 +36,7 @@ Lemma with_bucket_total args k : with_bucket args k <> Panic.
 Proof. unfold with_bucket. repeat head. Qed.
 
 Lemma hf_total v s : s <> [] -> humanize_float v s <> Panic.
-Proof. intros Hs. unfold humanize_float. destruct v; try discriminate. destruct (_ && _); [discriminate|]. destruct s; [contradiction|discriminate]. Qed.
+Proof. intros Hs. unfold humanize_float. destruct v; try discriminate. destruct s; [contradiction|]. cbv zeta. destruct (Nat.leb _ 3); discriminate. Qed.
 
 Theorem scalar_total f args orc : (f = Hf -> orc <> []) -> Funcs.eval (f, args, orc) <> Panic.
 Proof.
@@ -276,7 +276,7 @@ Proof. intros H. unfold f_select. rewrite H. reflexivity. Qed.
 Lemma check_sound c : (forall n args o, c = CFlat n args o -> has_model n = true /\ oracle_ok n o) ->
   C08_check c (predict c) = true.
 Proof.
-  destruct c as [n args o|]; intros H; [|reflexivity].
+  destruct c as [n args o|vs| |]; intros H; [|cbn [predict]; destruct (range_class vs) as [|[[q|q|]|[q|q|]|]]; reflexivity|reflexivity|reflexivity].
   destruct (H n args o eq_refl) as [Hm Ho]. cbn [predict].
   destruct (has_model_eval n args o Hm) as [r E]. rewrite E.
   pose proof (eval_name_total n args o r Ho E). destruct r; [reflexivity|contradiction].
@@ -310,3 +310,35 @@ Proof.
   split; [exact clamp_marker|]. split; [exact expbucket_marker|]. split; [exact hi_marker|].
   split; [exact select_marker|]. intros s l n. exact (proj2 (substr_markers_proof s l n)).
 Qed.
+
+(* ------------------------------------------------------------------ precision arguments (repair 7c30345) *)
+(* a constant precision above maxPrecision gives <VALUE> whatever the other arguments and the oracle are:
+   strconv.FormatFloat is never asked for more than maxPrecision decimals *)
+Definition precision_stmt : Prop :=
+  forall a p pv orc, static_int p = Some pv -> (maxPrecision < pv)%Z ->
+    f_round [a; p] orc = Ok M_ErrorValue /\
+    (forall u st d un, f_unitize u st d un [a; p] orc = Ok M_ErrorValue) /\
+    f_percent [a; p] orc = Ok M_ErrorValue /\
+    (forall mx, f_percent [a; p; mx] orc = Ok M_ErrorValue) /\
+    (forall mn mx, f_percent [a; p; mn; mx] orc = Ok M_ErrorValue).
+Theorem precision_marker : precision_stmt.
+Proof.
+  intros a p pv orc Hp Hlt.
+  assert (E : precision_ok pv = false) by (unfold precision_ok; apply Z.leb_gt; exact Hlt).
+  unfold f_round, f_unitize, f_percent. cbv zeta. rewrite Hp, E. repeat split; reflexivity.
+Qed.
+
+(* ------------------------------------------------------------------ @range never builds more than its cap *)
+Lemma range_c_bounded stop incr : forall fuel i count acc l,
+  Z.of_nat (List.length acc) = count -> (count <= maxRangeElements)%Z ->
+  range_c fuel i stop incr count acc = Some l -> (Z.of_nat (List.length l) <= maxRangeElements)%Z.
+Proof.
+  induction fuel as [|f IH]; intros i count acc l Hl Hc; cbn [range_c]; [discriminate|].
+  destruct (((incr >? 0) && (i <? stop)) || ((incr <? 0) && (i >? stop)))%Z.
+  - destruct (maxRangeElements <? count + 1)%Z eqn:E; [discriminate|]. apply Z.ltb_ge in E.
+    apply IH; [cbn [List.length]; lia|lia].
+  - intros H. inversion H. rewrite rev_length. lia.
+Qed.
+Theorem range_bounded start stop incr l :
+  range_capped start stop incr = Some l -> (Z.of_nat (List.length l) <= maxRangeElements)%Z.
+Proof. unfold range_capped. apply range_c_bounded; [reflexivity|vm_compute; discriminate]. Qed.
